@@ -55,7 +55,7 @@ func (l segLit) kind() string {
 func runC12(x *Ctx) {
 	x.C.Rule("C12.R1", "every segment literal produced by Parse is dispatched by resolve to the kind it intends", 8)
 	x.C.Rule("C12.R2", "no early success return of a node inside the segment loop", 2)
-	x.C.Rule("C12.R3", "field and index cases fail through the optional idiom; siblings agree", 2)
+	x.C.Rule("C12.R3", "field and index cases fail through the optional idiom; siblings agree; a successful lookup is never dropped", 3)
 	x.C.Rule("C12.R4", "resolveSliceIndices gets the slice of the segment and the length of the collection sliced", 3)
 	x.C.Rule("C12.R5", "Select is resolve(selector, subject, nil)", 1)
 
@@ -222,6 +222,8 @@ func runC12(x *Ctx) {
 		x.C.Obl("C12.R3", "idiom:errIfNotOptional", x.pos(g), "the helper returns nil for an optional segment and the given error otherwise", isOptionalIdiom(x, g), "")
 	}
 
+	lookupResults(x, res, loop, elem, curCell)
+
 	// ---------------- R4
 	sliceOperands(x, res, elem, curCell)
 
@@ -311,6 +313,17 @@ func segmentLiterals(x *Ctx, parse *ssa.Function) []segLit {
 // regexMinLens computes the static minimum match length of the selector package's regex globals.
 func regexMinLens(x *Ctx) map[string]int {
 	out := map[string]int{}
+	for name, src := range regexSources(x) {
+		if re, err := syntax.Parse(src, syntax.Perl); err == nil {
+			out[name] = minLen(re)
+		}
+	}
+	return out
+}
+
+// regexSources returns the source text of the regexp.MustCompile(constant) globals of the selector package.
+func regexSources(x *Ctx) map[string]string {
+	out := map[string]string{}
 	sp := x.P.SSA[load.Module+"/pkg/policy/selector"]
 	if sp == nil {
 		return out
@@ -341,11 +354,7 @@ func regexMinLens(x *Ctx) map[string]int {
 			if err != nil {
 				continue
 			}
-			re, err := syntax.Parse(src, syntax.Perl)
-			if err != nil {
-				continue
-			}
-			out[g.Name()] = minLen(re)
+			out[g.Name()] = src
 		}
 	}
 	return out
@@ -463,4 +472,52 @@ func sliceOperands(x *Ctx, res *ssa.Function, elem, cur string) {
 		strings.Join(lens, ";") == strings.Join(want, ";"), "lengths passed: "+strings.Join(lens, " ; "))
 	x.C.Obl("C12.R4", "operands:resolve", x.pos(res), "the slice passed is the segment's own; Go slice expressions use both resolved bounds on the collection whose length was passed", bad == "", bad)
 	x.C.Obl("C12.R4", "sites:resolve", x.pos(res), "three slicing sites (list, bytes, string)", len(seen) == 3, fmt.Sprintf("%d sites", len(seen)))
+}
+
+// lookupResults: in the field-on-map and index-on-list cases, an iteration that continues after a
+// SUCCESSFUL lookup continues with exactly the looked-up node (a present value, e.g. an explicit
+// null, is never turned into 'no value'), and continues with 'no value' only after a failed lookup
+// of an optional segment.
+func lookupResults(x *Ctx, res *ssa.Function, loop *paths.Loop, elem, cur string) {
+	if !strings.HasPrefix(cur, "*alloc(") {
+		x.C.Unresolved("C12.R3", "cursor:resolve", x.pos(res), "the current node is not kept in a local cell: "+cur)
+		return
+	}
+	cell := strings.TrimPrefix(cur, "*")
+	lps, err := x.E.LatchPaths(res, loop, nil, 0)
+	if err != nil {
+		return
+	}
+	bad, n := "", 0
+	for _, v := range lps {
+		k := dispatchKind(v.Path, elem)
+		if k != "field" && k != "index" {
+			continue
+		}
+		// last store to the cursor on this path
+		var stored *paths.Term
+		v.Instrs(func(in ssa.Instruction) {
+			if st, ok := in.(*ssa.Store); ok && v.Term(st.Addr).String() == cell {
+				stored = v.Term(st.Val)
+			}
+		})
+		for _, f := range v.Facts {
+			xx := paths.NilCheckOf(f.Atom)
+			if xx == nil {
+				continue
+			}
+			ct, _ := paths.CallOf(xx)
+			if ct == nil || !(strings.HasSuffix(ct.Name, "Node.LookupByString") || strings.HasSuffix(ct.Name, "Node.LookupByIndex")) || !strings.HasSuffix(xx.String(), "#1") {
+				continue
+			}
+			n++
+			switch {
+			case f.Pol && (stored == nil || stored.String() != ct.String()+"#0"):
+				bad += x.termPos(ct, res) + ": after a successful lookup the selection continues with " + fmt.Sprint(stored) + " instead of the node found (a present value such as null must not become 'no value')\n"
+			case !f.Pol && (stored == nil || !stored.IsNil()):
+				bad += x.termPos(ct, res) + ": after a failed lookup the selection continues with " + fmt.Sprint(stored) + "\n"
+			}
+		}
+	}
+	x.C.Obl("C12.R3", "lookup-result-kept:resolve", x.pos(res), "a successful field lookup continues with the node found; only a failed lookup of an optional segment continues with 'no value'", bad == "" && n >= 2, bad)
 }
